@@ -24,7 +24,7 @@ fn err_kind(e: &anyhow::Error) -> String {
 }
 
 pub fn run(ctx: &mut Ctx) {
-    let total = ctx.n(80_000, 1_000_000);
+    let total = ctx.n(80_000, 5_000_000);
     for case in ctx.cases(total) {
         ctx.begin_case(case);
         let mut rng = ctx.rng(case);
